@@ -12,6 +12,7 @@ import (
 	"fmt"
 	"io/ioutil"
 	"os"
+	"runtime"
 	"sort"
 	"strings"
 	"sync/atomic"
@@ -1213,6 +1214,7 @@ func main() {
 		}
 		*batch = rp.Batch // a history depends on everything the process did before: the whole batch is re-run
 	}
+	var tStep, tSettle, tCheck time.Duration
 	nHist, nSteps := 100, 40
 	if *tier == "thorough" {
 		nHist, nSteps = 3000, 100
@@ -1280,7 +1282,9 @@ func main() {
 		prev := "start"
 		for i, j := range idx {
 			d := defs[j]
+			t0 := time.Now()
 			res := d.fn(w)
+			tStep += time.Since(t0)
 			core.Add("evaluations", 1)
 			core.Add("steps/"+d.class, 1)
 			if res.effective {
@@ -1294,10 +1298,14 @@ func main() {
 					fmt.Fprintf(os.Stderr, "ineffective %s: %s\n", d.class, res.note)
 				}
 			}
+			t0 = time.Now()
 			if res.async {
 				pxy.Settle(3*time.Second, 3, nil)
 			}
+			tSettle += time.Since(t0)
+			t0 = time.Now()
 			m.check(w, hid, desc, d.class, i, res.note, classes[:i+1])
+			tCheck += time.Since(t0)
 			prev = d.class
 		}
 		if ineffective*4 > nSteps {
@@ -1308,6 +1316,9 @@ func main() {
 		if h < 2 {
 			core.Sample(desc)
 		}
+	}
+	if os.Getenv("C15_DEBUG") != "" {
+		fmt.Fprintf(os.Stderr, "time: steps %v settle %v check %v goroutines %d\n", tStep, tSettle, tCheck, runtime.NumGoroutine())
 	}
 	core.Add("heartbeats_observed", atomic.LoadInt64(&w.hbCount[0].n)+atomic.LoadInt64(&w.hbCount[1].n))
 	core.Finish()
